@@ -293,7 +293,10 @@ async def _execute(sc) -> list[dict]:
 
     queues: dict[int, asyncio.Queue] = {}
     tasks: dict[int, asyncio.Task] = {}
-    state = {"cms": {}, "tx": {}}
+    state = {"cms": {}, "tx": {}, "txoff": {}}
+
+    def fully_off():
+        return {bid for bid, b in backends.items() if b.is_full_disable}
 
     async def handle(ctx: int, op) -> dict:
         kind = op[0]
@@ -328,9 +331,12 @@ async def _execute(sc) -> list[dict]:
                 tx = cache.transaction(mode)
                 await tx.__aenter__()
                 state["tx"][ctx] = tx
+                state["txoff"][ctx] = fully_off()
                 out["r"] = "ok"
             elif kind == "txexit":
                 tx = state["tx"].pop(ctx)
+                # backends that reported themselves fully disabled at every command of the transaction and now
+                out["off_whole_tx"] = sorted(state["txoff"].pop(ctx) & fully_off())
                 n0 = len(_LOG)
                 await tx.__aexit__(None, None, None)
                 out["r"] = "ok"
@@ -341,6 +347,9 @@ async def _execute(sc) -> list[dict]:
                 name, ks = op[2], op[3]
                 # the implementation's own opinion, asked right before the command (spec oracle input)
                 out["intx"] = ctx in state["tx"]
+                out["fulloff"] = sorted(fully_off())
+                if ctx in state["txoff"]:
+                    state["txoff"][ctx] &= fully_off()
                 out["dis"] = {str(bid): b.is_disable(cmd_of[name]) for bid, b in backends.items()}
                 n0 = len(_LOG)
                 try:
